@@ -1,14 +1,16 @@
 #!/bin/sh
-# usage: tools/try_seed.sh <patch.diff> <ID> [tier]   - applies a seeded change to /repo, runs the check, reverts.
+# usage: tools/try_seed.sh <patch.diff> <ID> [tier]
+# Applies a seeded change to a scratch worktree of /repo's HEAD, runs the property's registered check against
+# that tree (VERIF_REPO) and removes the worktree. /repo, the registered evidence files and .work are not touched,
+# so this can run while other checks are running.
 set -u
 patch="$1"; id="$2"; tier="${3:-quick}"
 cd /verif
-if [ -n "$(git -C /repo status --porcelain)" ]; then echo "repo dirty, abort"; exit 9; fi
-git -C /repo apply "$patch" || { echo "patch does not apply"; exit 9; }
-# the evidence file describes the unchanged tree: keep it across the seeded run
-[ -f evidence/$id.json ] && cp evidence/$id.json /tmp/try_seed.evidence.$id
-./run.sh "$id" "$tier" > /tmp/try_seed.out 2>&1; rc=$?
-git -C /repo checkout -- . 
-[ -f /tmp/try_seed.evidence.$id ] && mv /tmp/try_seed.evidence.$id evidence/$id.json
-grep -E "^(VIOLATION|violation|INCONCLUSIVE|C[0-9]+ tier)" /tmp/try_seed.out | cut -c1-400
+wt=/tmp/wt-try-$$; scratch=/tmp/verif-try-$$
+git -C /repo worktree add --detach $wt HEAD >/dev/null 2>&1 || { echo "cannot create worktree"; exit 9; }
+trap 'git -C /repo worktree remove --force $wt >/dev/null 2>&1; rm -rf $scratch' EXIT
+git -C $wt apply "$patch" || { echo "patch does not apply"; exit 9; }
+VERIF_REPO=$wt VERIF_WORKROOT=$scratch/work VERIF_EVIDENCE_DIR=$scratch/evidence ./run.sh "$id" "$tier" > $scratch.out 2>&1; rc=$?
+grep -E "^(VIOLATION|violation|INCONCLUSIVE|C[0-9]+ tier)" $scratch.out | cut -c1-400
+rm -f $scratch.out
 echo "exit=$rc"
